@@ -335,6 +335,47 @@ class NamespaceClass(Namespace[symtable.Class]):
                 keywords=[],
             )
 
+    def _get_load_name_skipping_class(self, name: str) -> expr:
+        """
+        Load a name used inside a lambda or a comprehension of the class body:
+        it belongs to the nearest enclosing function which binds it
+        (even if the class body binds the same name), or it is global.
+        """
+        if name in self.outer_nonlocal_map:
+            outer = self.outer_nonlocal_map[name]
+            return Subscript(
+                value=outer.nonlocal_dict_expr,
+                slice=Constant(value=name),
+                ctx=Load(),
+            )
+        outer = self.outer_nsp
+        while outer is not None:
+            if isinstance(outer, NamespaceFunction):
+                try:
+                    symbol = outer.symt.lookup(name)
+                except KeyError:
+                    symbol = None
+                if symbol is not None:
+                    if name in outer.outer_nonlocal_map:
+                        return Subscript(
+                            value=outer.outer_nonlocal_map[name].nonlocal_dict_expr,
+                            slice=Constant(value=name),
+                            ctx=Load(),
+                        )
+                    if symbol.is_global():
+                        break
+                    if symbol.is_local():
+                        if name in outer.inner_nonlocal_names:
+                            return Subscript(
+                                value=outer.nonlocal_dict_expr,
+                                slice=Constant(value=name),
+                                ctx=Load(),
+                            )
+                        # a plain local of the enclosing (lambda) function
+                        return Name(id=name, ctx=Load())
+            outer = getattr(outer, "outer_nsp", None)
+        return self.get_load_global_name(name)
+
     def get_load_name(self, name: str) -> expr:
         for comp in self.comp_stack:
             if name in comp.target_names:
@@ -350,14 +391,7 @@ class NamespaceClass(Namespace[symtable.Class]):
             ):
                 # the names of the class body are not visible inside a lambda
                 # or a comprehension (except in its first iterable)
-                if name in self.outer_nonlocal_map:
-                    outer = self.outer_nonlocal_map[name]
-                    return Subscript(
-                        value=outer.nonlocal_dict_expr,
-                        slice=Constant(value=name),
-                        ctx=Load(),
-                    )
-                return self.get_load_global_name(name)
+                return self._get_load_name_skipping_class(name)
 
         try:
             symbol = self.symt.lookup(name)
